@@ -215,13 +215,20 @@ def check(prog: Program, rep: Report) -> None:
                            f"`{built.get(self_attr(loop2.iter.value))}`")
     # -- inside the creation routines the pools change only by the linear move of the creation loop --------------------------
     for fn in creators:
+        # the linear move, wherever it stands: h = not_running[t].pop()  ...  running[t].append(h)
         moves = set()
-        for loop in [n for n in ast.walk(fn) if isinstance(n, ast.For) and isinstance(n.iter, ast.Call) and isinstance(n.iter.func, ast.Attribute)
-                     and n.iter.func.attr == "yield_identifiers_send_event_time"]:
-            for n in ast.walk(loop):
-                if isinstance(n, ast.Call) and isinstance(n.func, ast.Attribute) and n.func.attr in ("pop", "append") \
-                        and isinstance(n.func.value, ast.Subscript) and self_attr(n.func.value.value) in (running, not_running):
-                    moves.add(id(n))
+        popped: Dict[str, ast.AST] = {}
+        for n in ast.walk(fn):
+            if isinstance(n, ast.Assign) and len(n.targets) == 1 and isinstance(n.targets[0], ast.Name) and isinstance(n.value, ast.Call) \
+                    and isinstance(n.value.func, ast.Attribute) and n.value.func.attr == "pop" and not n.value.args \
+                    and isinstance(n.value.func.value, ast.Subscript) and self_attr(n.value.func.value.value) == not_running:
+                moves.add(id(n.value))
+                popped[n.targets[0].id] = n.value.func.value.slice
+        for n in ast.walk(fn):
+            if isinstance(n, ast.Call) and isinstance(n.func, ast.Attribute) and n.func.attr == "append" and isinstance(n.func.value, ast.Subscript) \
+                    and self_attr(n.func.value.value) == running and len(n.args) == 1 and isinstance(n.args[0], ast.Name) \
+                    and n.args[0].id in popped and norm(popped[n.args[0].id]) == norm(n.func.value.slice):
+                moves.add(id(n))
         for n in ast.walk(fn):
             other = None
             if isinstance(n, (ast.Assign, ast.AugAssign)):
